@@ -15,7 +15,12 @@
 (* A scenario scn fixes the destination, the credentials, the API used and the script of    *)
 (* the server: srv[k] are the bytes the server sends after the client's k-th message; the   *)
 (* server closes the connection when the client waits for bytes the script does not have.   *)
-(*   scn  = [dest |-> [k |-> "ip4"|"ip6"|"name", b |-> bytes, port |-> n],                   *)
+(*   scn  = [dest |-> [k |-> "ip4"|"ip6"|"name"|"odd", b |-> bytes, port |-> n],             *)
+(*           (k = "ip4"/"ip6": b = the address of a PLAIN IP literal; "name": b = the text    *)
+(*            of an ordinary host name; "odd": b = the text of a host that is neither -- an   *)
+(*            IPv6 literal with a zone (fe80::1%eth0), IPv4-like text that is not a valid     *)
+(*            dotted quad (010.0.0.1, 1.2.3, 1.2.3.4.5, 0x7f.1), a name with a trailing dot,  *)
+(*            the empty host; an optional field sp only tells the driver how to spell it)     *)
 (*           auth |-> [on |-> BOOLEAN, u |-> bytes, p |-> bytes],                           *)
 (*           api  |-> "DialContext" | "DialContextCancel" | "Dial",  srv |-> Seq(bytes)]     *)
 (* An observation is what the in-memory server saw and what the dialer returned:            *)
@@ -34,6 +39,9 @@
 (*       and must not send a request that names another destination;                        *)
 (*   U3  port 0: refused (not a TCP destination) or sent as 0;                               *)
 (*   U4  an IPv4-mapped IPv6 destination may be sent as ATYP 4 or as the IPv4 address.       *)
+(*   U5  an "odd" host: the request carries the host text verbatim as a domain name (what a  *)
+(*       conforming server then decodes is exactly the requested host), or the dial fails    *)
+(*       without a request -- never an address, which would name a different destination.    *)
 (* Every malformed, refused or truncated server message has to end in "err".                *)
 EXTENDS Integers, Sequences, FiniteSets
 
@@ -53,7 +61,9 @@ Offered(g) == {g[i] : i \in 3 .. Len(g)}
 AuthMsg(a) == <<1, Len(a.u)>> \o a.u \o <<Len(a.p)>> \o a.p
 AuthEncodable(a) == Len(a.u) \in 1 .. 255 /\ Len(a.p) \in 1 .. 255
 
-DestAddrOK(d) == d.k = "name" => Len(d.b) \in 1 .. 255
+DestAddrOK(d) == /\ d.k = "name" => Len(d.b) \in 1 .. 255
+                 /\ d.k = "odd"  => Len(d.b) \in 0 .. 255
+MayRefuse(d)  == d.k = "odd"                                                              \* U5
 DestPortOK(d) == d.port \in 1 .. 65535
 \* the destination cannot be expressed in a request at all
 Unencodable(d) == ~DestAddrOK(d) \/ d.port > 65535
@@ -63,7 +73,7 @@ Requests(d) ==
     CASE d.k = "ip4"  -> {<<5, 1, 0, 1>> \o d.b \o tl}
       [] d.k = "ip6"  -> {<<5, 1, 0, 4>> \o d.b \o tl}
                          \cup (IF IsMapped(d.b) THEN {<<5, 1, 0, 1>> \o SubSeq(d.b, 13, 16) \o tl} ELSE {})   \* U4
-      [] d.k = "name" -> {<<5, 1, 0, 3, Len(d.b)>> \o d.b \o tl}
+      [] d.k \in {"name", "odd"} -> {<<5, 1, 0, 3, Len(d.b)>> \o d.b \o tl}                    \* verbatim
 
 \* ------------------------------------------------------------------ a conforming server's decoder
 \* (RFC 1928 s.4/5): used to state the property on the spec itself
@@ -82,6 +92,7 @@ SameDest(dec, d) ==
     /\ dec.ok /\ dec.cmd = 1 /\ dec.port = d.port
     /\ \/ dec.k = d.k /\ dec.b = d.b
        \/ d.k = "ip6" /\ IsMapped(d.b) /\ dec.k = "ip4" /\ dec.b = SubSeq(d.b, 13, 16)
+       \/ d.k = "odd" /\ dec.k = "name" /\ dec.b = d.b
 
 \* the property on the specification: every request the spec admits decodes to the destination
 RequestsDecode(d) == (DestAddrOK(d) /\ d.port \in 0 .. 65535) => \A q \in Requests(d) : SameDest(DecodeReq(q), d)
@@ -118,7 +129,7 @@ Srv(scn, k) == IF k <= Len(scn.srv) THEN scn.srv[k] ELSE <<>>          \* nothin
 RequestPhase(scn, msgs) ==
     LET d == scn.dest IN
     IF Unencodable(d) THEN {Err(msgs)}                                                    \* U2
-    ELSE (IF d.port = 0 THEN {Err(msgs)} ELSE {})                                         \* U3
+    ELSE (IF d.port = 0 \/ MayRefuse(d) THEN {Err(msgs)} ELSE {})                         \* U3, U5
          \cup { LET sent == Append(msgs, q)
                     rep  == ParseReply(Srv(scn, Len(sent)))
                 IN  IF ~rep.ok THEN Err(sent)
@@ -146,7 +157,7 @@ Prefixes(s) == {SubSeq(s, 1, n) : n \in 0 .. Len(s)}
 Allowed(scn) ==
     LET normal == UNION {AfterGreeting(scn, g) : g \in Greetings(scn)}
         \* U2: a client may notice up front that it cannot encode the destination / the credentials
-        early  == IF Unencodable(scn.dest) \/ scn.dest.port = 0 \/ (scn.auth.on /\ ~AuthEncodable(scn.auth))
+        early  == IF Unencodable(scn.dest) \/ scn.dest.port = 0 \/ MayRefuse(scn.dest) \/ (scn.auth.on /\ ~AuthEncodable(scn.auth))
                   THEN {Err(<<>>)} \cup
                        {Err(p) : p \in UNION {Prefixes(o.msgs) : o \in {x \in normal : x.res = "err"}}}
                   ELSE {}
@@ -158,6 +169,12 @@ IsRequest(m) == Len(m) >= 4 /\ m[1] = 5 /\ m[2] = 1 /\ m[3] = 0
 NeverWrongRequest(scn) ==
     Unencodable(scn.dest) => \A o \in Allowed(scn) :
         o.res = "err" /\ \A i \in 1 .. Len(o.msgs) : ~IsRequest(o.msgs[i])
+
+\* every request that is ever admissible on the wire -- whatever the server answers -- decodes to
+\* exactly the requested destination (in particular never to an address for an "odd" host)
+RequestsAlwaysName(scn) ==
+    \A o \in Allowed(scn) : \A i \in 1 .. Len(o.msgs) :
+        IsRequest(o.msgs[i]) => SameDest(DecodeReq(o.msgs[i]), scn.dest)
 
 \* whenever "ok" is admissible the last client message is a request that decodes to the destination
 OkMeansNamed(scn) ==
